@@ -31,6 +31,10 @@ def scenario(c, rnd):
     steps += [{'op': 'req', 'id': 4, 'key': 'a', 'method': p['method'], 'body': body, 'origin': mresp},
               {'op': 'req', 'id': 5, 'key': 'a', 'origin': cacheable_a},
               {'op': 'req', 'id': 6, 'key': 'b', 'origin': cacheable}]
+    if p.get('query') == 'slash':
+        for st in steps:
+            if st.get('key') == 'a':
+                st['query'] = 'next=/x/y'
     return {'steps': steps, 'par': p, 'pred': c['pred']}
 
 
@@ -42,7 +46,7 @@ def run(ctx):
     classes.sort(key=lambda c: json.dumps(c, sort_keys=True))
     rnd.shuffle(classes)
     out = []
-    quota = {('mem', 'none'): 150, ('mem', 'slow'): 30, ('rock', 'none'): 30, ('rock', 'slow'): 30, ('ufs', 'none'): 20, ('ufs', 'slow'): 20}
+    quota = {('mem', 'none'): 190, ('mem', 'slow'): 30, ('rock', 'none'): 30, ('rock', 'slow'): 30, ('ufs', 'none'): 20, ('ufs', 'slow'): 20}
     for (store, reader), q in sorted(quota.items()):
         grp = [c for c in classes if c['par']['store'] == store and c['par']['reader'] == reader]
         if not ctx.thorough:
@@ -79,5 +83,5 @@ def run(ctx):
         ctx.sample({'par': s['par'], 'events': cachesim.strip_for_tlc(ev)})
     ctx.cov['by_store_reader'] = {'%s/%s' % k: sum(1 for s, _ in out if (s['par']['store'], s['par']['reader']) == k) for k in quota}
     ctx.cov['slow_reader_got_header'] = sum(1 for _, ev in out for e in ev if e.get('slow') and e['hv'] >= 0)
-    ctx.cov['rule'] = ('classes = InvalScen.tla tuples (method x status x Location kind x header x store {mem, rock, ufs} x another client still receiving a {no, yes}); GET a, GET b, GET a, [slow GET a,] M a, GET a, GET b; histories '
+    ctx.cov['rule'] = ('classes = InvalScen.tla tuples (method x status x Location kind x header x store {mem, rock, ufs} x another client still receiving a {no, yes} x URL of a with a query containing a slash {no, yes}); GET a, GET b, GET a, [slow GET a,] M a, GET a, GET b; histories '
                        'validated by TLC against Invalidation.tla. Non-trivial = distinct class.')
